@@ -3,6 +3,7 @@ mod common;
 mod corpus;
 mod drive;
 mod gen;
+mod irfull;
 mod irgen;
 mod json;
 mod judge;
